@@ -49,7 +49,7 @@ func (e *Engine) writeReplay(prop string, o *Obl, header, dir string) (string, b
 		rf.Note = "the obligation was not discharged; no failing input was confirmed against the real code (no-failing-input-found)"
 	}
 	sum := sha256.Sum256([]byte(o.Name))
-	out := filepath.Join(verifDir, "replays", prop)
+	out := filepath.Join(outDir(), "replays", prop)
 	os.MkdirAll(out, 0o755)
 	path := filepath.Join(out, hex.EncodeToString(sum[:6])+".json")
 	b, _ := json.MarshalIndent(rf, "", " ")
